@@ -262,7 +262,7 @@ theorem explicit_spec {k : Codec} {o q : ChunkReader.Reader} (hq : CRInv o q) (r
               rw [← hrel]; exact (List.isEmpty_iff.mp hemp).symm
           · show r2.dlo + (r2.dec.take n).length ≤ r2.pos + (r2.dec.take n).length; omega
           · show r2.pos + (r2.dec.take n).length ≤ r.dhi
-            rw [← f.dhi]; omega
+            have := f.dhi; omega
       · simp only [hemp, Bool.false_eq_true, ↓reduceIte] at hout
         subst hout
         simp only
@@ -271,7 +271,7 @@ theorem explicit_spec {k : Codec} {o q : ChunkReader.Reader} (hq : CRInv o q) (r
         have hne : r2.dec ≠ [] := by
           intro h0; rw [h0] at hemp; simp at hemp
         have hpos : 0 < r2.dec.length := List.length_pos_iff.mpr hne
-        refine ⟨a7, ⟨f.dhi, f.lim, f.closed, f.conc, f.crPos⟩, by rw [hlen, a1]; rfl, ?_, ?_, ?_,
+        refine ⟨a7, ⟨f.dhi, f.lim, f.closed, f.conc, f.crPos⟩, by rw [hlen, a1], ?_, ?_, ?_,
           Or.inr ⟨a5, by rw [hlen]; omega⟩⟩
         · refine ⟨c, data, tr, hc, hd, by show r2.dhi = c.dHi; rw [f.dhi]; exact e1, ?_, hrel,
             by intro _; show r2.decTrunc = tr; rw [a6]; exact e4 hB,
@@ -279,7 +279,7 @@ theorem explicit_spec {k : Codec} {o q : ChunkReader.Reader} (hq : CRInv o q) (r
           show c.dLo ≤ r2.dlo + (r2.dec.take n).length; omega
         · show r2.dlo + (r2.dec.take n).length ≤ r2.pos + (r2.dec.take n).length; omega
         · show r2.pos + (r2.dec.take n).length ≤ r.dhi
-          rw [← f.dhi]; omega
+          have := f.dhi; omega
 
 /-- `readImplicitZeroes` on an exhausted chunk: the NULs it hands out are the file's meaning -/
 theorem zeroes_spec {k : Codec} {o q : ChunkReader.Reader} (hq : CRInv o q) (r : R) (n : Nat)
@@ -297,7 +297,8 @@ theorem zeroes_spec {k : Codec} {o q : ChunkReader.Reader} (hq : CRInv o q) (r :
   have hnil := e5 hC
   unfold readZeroes
   simp only [hmax]
-  refine ⟨?_, rfl, rfl, ⟨rfl, rfl, rfl, rfl, rfl⟩, rfl, rfl, ?_⟩
+  refine ⟨?_, by first | rfl | trivial, by first | rfl | trivial, ⟨rfl, rfl, rfl, rfl, rfl⟩,
+    by first | rfl | trivial, by first | rfl | trivial, ?_⟩
   · intro i hi
     have hL : LoadedR k o r := ⟨c, data, tr, hc, hd, e1, e2, e3, e4, e5⟩
     rw [hL.byte hq (r.pos + i) (by omega) (by omega), hnil]
